@@ -68,24 +68,27 @@ CLAIMED = {
        'round by round with the model.',
   ref='6/C13', technique='Lean 4 proof (grouping lemmas, case analysis over attempt outcomes) + differential correspondence vs real Queue/Bounce histories'),
  'C03': dict(
-  text='PARTIAL (sequential histories + storage; interleavings pending). Lean theorems over Model/Attempt.lean + Model/Store.lean: for every valid '
+  text='PARTIAL (part 1 over sequential histories and storage; part 2 over the stage-1 scheduler model: atomic storage calls, non-blocking spawns, calm announcements). Lean theorems over Model/Attempt.lean + Model/Store.lean: for every valid '
        'history of delivery attempts (any rounds, recipients, outcomes, backoff) a recipient reported delivered or permanently failed is in no '
        'later attempt; the next attempt is made for exactly the transiently refused recipients; the accumulating index representation of '
        'disk/redis/cloud agrees with the reference store over any number of marking rounds. The real Queue is driven through exhaustive '
        'per-recipient outcome tables (<=3 recipients x 3 outcomes x <=3 rounds, mapping and sequence forms) on all four backends and compared with '
-       'the model round by round; overlapping attempts are monitored. Not yet proved: single attempt in flight under all interleavings of '
-       'enqueue / timers / flush / load / wait() (scheduler model).',
+       'the model round by round; overlapping attempts are monitored. Part 2: under every interleaving of the scheduler transition system '
+       '(Model/Sched.lean, tied to the real Queue by C12\'s trace replay) the attempts in flight are pairwise different messages and a message in '
+       'flight has neither a timetable entry nor a pending _dequeue task (one_attempt_in_flight_per_message).',
   ref='6/C03', technique='Lean 4 proof (conservation/counting invariant over attempt histories, store refinement) + differential correspondence vs real Queue on 4 backends',
-  note='Partial: interleavings are exercised only as far as the started real queue produces them.'),
+  note='Partial: the interleaving theorem is about the stage-1 scheduler model under the Calm assumption (see C12).'),
  'C01': dict(
-  text='PARTIAL (ledger; scheduling pending). Lean theorems over Model/Attempt.lean: for every attempt outcome and every history each accepted recipient '
+  text='PARTIAL (the ledger over sequential histories; "keeps being retried" over the stage-1 scheduler model under the Calm assumption of C12; the two models are not composed into one machine; bounded pools: known finding). Lean theorems over Model/Attempt.lean: for every attempt outcome and every history each accepted recipient '
        'is exactly one of delivered / failed for good / still stored; the message is removed only when nobody is outstanding; when the backoff '
        'returns None everybody outstanding is failed; failed recipients of a non-null-sender message are named in a bounce (with C13). The real Queue '
        'is driven through seeded histories mixing None/Reply, mapping, sequence, Transient, Permanent and unexpected exceptions on dict, disk, redis and '
        'cloud backends and compared with the model; the ledger is monitored on the implementation. Known finding: bounded pools can stall the queue. '
-       'Not yet proved: that an outstanding message is always scheduled (C12 scheduler model).',
+       'Scheduling half (accepted_never_unscheduled, from C12): in every reachable state of the scheduler transition system a stored message the queue '
+       'knows is being handed off, in flight, finishing, dequeuing, or in the timetable with the loop due to wake by its time; a due entry enables the '
+       'scheduler turn that dispatches it.',
   ref='6/C01', technique='Lean 4 proof (ledger conservation by counting, induction over histories) + differential correspondence vs real Queue on 4 backends',
-  note='Partial: "keeps being retried" under all interleavings rests on the scheduler model still to be built.'),
+  note='Partial: ledger and scheduler are two models tied to the same code, not one composed machine; stage 1 (atomic storage calls, non-blocking spawns); Calm assumption.'),
  'C04': dict(
   text='PARTIAL (process death; POSIX rename/unlink atomicity and pickle integrity assumed). Lean theorems over Model/DiskFS.lean (every DiskStorage '
        'operation = a list of atomic file-system effects: temp-file creation, chunk writes, rename, unlink; the process may die after any prefix): '
